@@ -452,7 +452,8 @@ def execute(ctx, prog, display, terminal, firings, height, strategy, strat_kind,
                                      frame_on_screen=krows_screen, tainted=tainted))
             return
     inter = tuple((w[1], "frame" if _FRAME.search(w[2]) else "text") for w in file.writes)
-    ctx.hist("distinct_write_interleavings_sig", hash(inter) % 1000)
+    ctx.distinct("write_interleavings(thread,kind sequences)", inter)
+    ctx.distinct("schedules(choice sequences)", tuple(sched.choices or ()))
     ctx.hist("display", display)
     ctx.hist("strategy", strat_kind)
     ctx.hist("switches", min(sched.switches // 10 * 10, 100))
